@@ -243,5 +243,16 @@ def shard(ctx: Ctx):
             return s, text, draw(st.sampled_from(['default', 'default', 'props', 'renderers', 'all']))
 
         hyp_run(ctx, 'routes', cases(), lambda c: evaluate(c, ctx, tmpdir), 60 if quick else 600)
+        # rejected documents too: a route that tolerates what the others reject is a disagreement
+        from . import c07
+        from ..surface import render
+
+        @st.composite
+        def bad_cases(draw):
+            s_, text0, f = draw(c07.cases(strict_features(), sizes))
+            text = render(f[1], '\n', True) if f else text0
+            return s_, text, 'props' if s_.allow_properties else 'default'
+
+        hyp_run(ctx, 'routes-malformed', bad_cases(), lambda c: evaluate(c, ctx, tmpdir), 25 if quick else 300)
     finally:
         shutil.rmtree(tmpdir, ignore_errors=True)
